@@ -11,12 +11,14 @@ var Registry = map[string]func(Tier) int{
 	"C08": C08,
 	"C09": C09,
 	"C10": C10,
+	"C11": C11,
 	"C07": C07,
 	"C12": C12,
 	"C14": C14,
 	"C15": C15,
 	"C16": C16,
 	"C17": C17,
+	"C18": C18,
 	"C20": C20,
 }
 
